@@ -117,7 +117,7 @@ impl<T: Clone + Send + Sync + 'static> Puppet<T> {
             &self.feeds,
         );
         let err: DynErr = Arc::new(PuppetError(self.id, k));
-        let err_id = self.world.register_err(&err);
+        let err_id = self.world.register_err(&err, &format!("P{}", self.id));
         let sub = Arc::new(Sub {
             k,
             edge,
